@@ -12,6 +12,7 @@ import (
 	"io"
 	"net/http"
 	"net/http/httptest"
+	"net/url"
 	"os"
 	"os/exec"
 	"path/filepath"
@@ -66,6 +67,7 @@ type streamCase struct {
 	LongLine    bool                `json:"long_line,omitempty"`
 	Fat         bool                `json:"fat,omitempty"`
 	Big         bool                `json:"big,omitempty"`
+	Faults      []string            `json:"faulty_request_lines,omitempty"` // http: request lines that are no target (one error each)
 	Sched       []int               `json:"-"`
 }
 
@@ -156,7 +158,36 @@ func genStreamCase(r *kit.Rng, format, work string, id int) streamCase {
 		n = []int{150, 400, 900, 1500, 3000}[r.Pick(5)] + r.Pick(100)
 		sc.Big = true
 	}
+	// faulty request lines in the middle of an http input: a bad URL, a lower-case method, a lone
+	// word. Each is a line of its own that is no target (the format describes a request line as
+	// "METHOD URL"); the targets around it are the input's targets all the same. Half of these
+	// inputs are compact (no blank line after the faulty line, nor between the targets).
+	faultAt := map[int]string{}
+	compact := big
+	if format == "http" && (id%10 == 3 || id%10 == 9 || (big && r.Chance(0.5))) {
+		if n < 4 {
+			n = 4 + r.Pick(60)
+		}
+		if id%10 == 9 {
+			compact = true
+		}
+		for k := 0; k < 1+r.Pick(3); k++ {
+			faultAt[1+r.Pick(n-1)] = r.PickStr([]string{"GET http://[::1", "POST http://[fe80::1%en0]:80/x y", "get http://lower-" + strconv.Itoa(id) + "/m", "Get http://mixed-" + strconv.Itoa(id) + "/m", "bogus", "GET"})
+		}
+	}
 	for i := 0; i < n; i++ {
+		if f, ok := faultAt[i]; ok && format == "http" {
+			// a line that does not start with a method would be read as a header line of the
+			// target before it: such a faulty line stands after a blank line
+			if !strings.HasPrefix(f, "GET ") && !strings.HasPrefix(f, "POST ") {
+				sb.WriteString("\n")
+			}
+			sb.WriteString(f + "\n")
+			if !compact && r.Chance(0.5) {
+				sb.WriteString("\n")
+			}
+			sc.Faults = append(sc.Faults, f)
+		}
 		method := r.PickStr([]string{"GET", "POST", "PUT", "DELETE"})
 		url := "http://host-" + strconv.Itoa(id) + ":8080/t/" + strconv.Itoa(i)
 		if big {
@@ -167,7 +198,7 @@ func genStreamCase(r *kit.Rng, format, work string, id int) streamCase {
 		}
 		var own [][2]string
 		nown := r.Pick(4)
-		if big && !r.Chance(0.1) {
+		if compact && !r.Chance(0.1) {
 			nown = 0 // mostly bare one-line targets
 		}
 		for j := 0; j < nown; j++ {
@@ -180,7 +211,7 @@ func genStreamCase(r *kit.Rng, format, work string, id int) streamCase {
 			own = append(own, [2]string{"X-Fat", strconv.Itoa(i) + strings.Repeat(string(rune('a'+i%26)), 1000+r.Pick(1000))})
 		}
 		var body []byte
-		if r.Chance(0.3) && (!big || r.Chance(0.15)) {
+		if r.Chance(0.3) && (!compact || r.Chance(0.15)) {
 			body = []byte("body-" + strconv.Itoa(i))
 		}
 		if format == "json" {
@@ -228,7 +259,7 @@ func genStreamCase(r *kit.Rng, format, work string, id int) streamCase {
 				sc.Files[p] = body
 				sb.WriteString("@" + p + "\n")
 			}
-			if len(own) > 0 && body == nil || (!big && r.Chance(0.3)) {
+			if len(own) > 0 && body == nil || (!compact && r.Chance(0.3)) {
 				sb.WriteString("\n")
 			}
 			sc.Expected = append(sc.Expected, expectedTarget(method, url, body, own, &sc))
@@ -255,11 +286,12 @@ type callerLog struct {
 	late      int // results received after this caller was told ErrNoTargets
 	panicMsg  string
 	panics    int
+	gaveUp    bool // more calls than the input has lines (times three) without exhaustion
 }
 
 // drawConcurrently: `callers` goroutines draw from one targeter until each has been told
 // ErrNoTargets three times.
-func drawConcurrently(tr vegeta.Targeter, callers int) []callerLog {
+func drawConcurrently(tr vegeta.Targeter, callers, maxCalls int) []callerLog {
 	logs := make([]callerLog, callers)
 	start := make(chan struct{})
 	var wg sync.WaitGroup
@@ -274,7 +306,11 @@ func drawConcurrently(tr vegeta.Targeter, callers int) []callerLog {
 			}()
 			<-start
 			l := &logs[g]
-			for l.exhausted < 3 {
+			for calls := 0; l.exhausted < 3; calls++ {
+				if calls > maxCalls {
+					l.gaveUp = true
+					return
+				}
 				var t vegeta.Target
 				var err error
 				// a panic in one call is recorded for that call; the caller goes on drawing
@@ -361,7 +397,9 @@ func runStream(s *kit.Summary, sc *streamCase) (implLine string) {
 	} else {
 		tr = vegeta.NewHTTPTargeter(strings.NewReader(sc.Src), sc.DefaultBody, hdr)
 	}
-	logs := drawConcurrently(tr, sc.Callers)
+	// every call consumes at least one line or reports exhaustion: a caller needs no more calls
+	// than that, whatever the other callers do
+	logs := drawConcurrently(tr, sc.Callers, 3*(strings.Count(sc.Src, "\n")+1)+10)
 	if logs == nil {
 		s.Violate(kit.Violation{Kind: "targeter_call_never_returns", What: "concurrent callers drew from one targeter and at least one call did not return (no target, no ErrNoTargets)",
 			Input: sc, Expected: "every call returns", Observed: fmt.Sprintf("still running after %s", hangLimit),
@@ -372,12 +410,18 @@ func runStream(s *kit.Summary, sc *streamCase) (implLine string) {
 	ex := make([]uint64, sc.Callers)
 	late := 0
 	panicReported := false
+	gaveUpReported := false
 	for g, l := range logs {
 		if l.panicMsg != "" && !panicReported {
 			panicReported = true
 			s.Violate(kit.Violation{Kind: "targeter_panic_concurrent", What: "a targeter call panicked: " + l.panicMsg, Input: sc,
 				Expected: "every call returns a target or an error", Observed: fmt.Sprintf("caller %d: %d call(s) panicked: %s", g, l.panics, l.panicMsg),
 				Key: map[string]interface{}{"format": sc.Format, "callers": sc.Callers, "nil_default_map": sc.Defaults == nil}})
+		}
+		if l.gaveUp && !gaveUpReported {
+			gaveUpReported = true
+			s.Violate(kit.Violation{Kind: "stream_never_exhausted", What: "a caller made three times as many calls as the input has lines and was not told ErrNoTargets three times", Input: sc,
+				Key: map[string]interface{}{"format": sc.Format, "callers": sc.Callers}})
 		}
 		got = append(got, l.results...)
 		ex[g] = uint64(l.exhausted)
@@ -413,17 +457,37 @@ func runStream(s *kit.Summary, sc *streamCase) (implLine string) {
 	if sc.DefaultBody == nil {
 		s.Count(sc.Format + ":nil_default_body")
 	}
+	for i, g := range got {
+		if strings.HasPrefix(g, "err ") {
+			got[i] = "err " + errClass(g[4:])
+		}
+	}
 	sort.Strings(got)
+	delivered := got
+	if len(sc.Faults) > 0 {
+		// the faulty request lines are no targets: what is judged is the targets delivered (the
+		// errors reported for the faulty lines are compared with the model only)
+		s.Count(fmt.Sprintf("http:faulty_request_lines=%d", len(sc.Faults)))
+		if len(sc.Src) > 4096 {
+			s.Count("http:faulty_request_lines_in_input>4KiB")
+		}
+		delivered = nil
+		for _, g := range got {
+			if !strings.HasPrefix(g, "err ") {
+				delivered = append(delivered, g)
+			}
+		}
+	}
 	exp := make([]string, len(sc.Expected))
 	for i, e := range sc.Expected {
 		exp[i] = "ok " + e
 	}
 	sort.Strings(exp)
 	// oracle: multiset exactly once
-	if strings.Join(got, "\n") != strings.Join(exp, "\n") {
-		lost, dup := diffMultiset(exp, got)
+	if strings.Join(delivered, "\n") != strings.Join(exp, "\n") {
+		lost, dup := diffMultiset(exp, delivered)
 		s.Violate(kit.Violation{Kind: "stream_not_exactly_once", What: "multiset of targets returned to the concurrent callers differs from the input's targets",
-			Input: sc, Expected: fmt.Sprintf("%d targets", len(exp)), Observed: fmt.Sprintf("%d results; missing %v; unexpected %v", len(got), clip(lost), clip(dup)),
+			Input: sc, Expected: fmt.Sprintf("%d targets", len(exp)), Observed: fmt.Sprintf("%d results; missing %v; unexpected %v", len(delivered), clip(lost), clip(dup)),
 			Key: map[string]interface{}{"format": sc.Format, "callers": sc.Callers}})
 	}
 	// oracle: exhaustion reported to every caller afterwards
@@ -439,6 +503,17 @@ func runStream(s *kit.Summary, sc *streamCase) (implLine string) {
 	}
 	implLine = "ok " + strconv.Itoa(len(got)) + " ; " + strings.Join(got, " ; ") + " ; ex " + kit.Uints(ex) + " ; late " + strconv.Itoa(late)
 	return
+}
+
+// errClass: the class of a targeter error as the model numbers them (the text after the class
+// word repeats the input line)
+func errClass(msg string) string {
+	for i, p := range []string{"bad target:", "bad method:", "bad URL:", "bad body:", "bad header:"} {
+		if strings.HasPrefix(msg, p) {
+			return strconv.Itoa(i + 2)
+		}
+	}
+	return msg
 }
 
 func clip(xs []string) []string {
@@ -467,6 +542,8 @@ func diffMultiset(exp, got []string) (lost, extra []string) {
 	return
 }
 
+func validURI(u string) bool { _, err := url.ParseRequestURI(u); return err == nil }
+
 func streamOp(sc *streamCase, sched []int) string {
 	var sb strings.Builder
 	if sc.Format == "json" {
@@ -492,7 +569,7 @@ func streamOp(sc *streamCase, sched []int) string {
 		seen := map[string]bool{}
 		var us []string
 		for _, l := range strings.Split(sc.Src, "\n") {
-			if tok := strings.SplitN(l, " ", 2); len(tok) == 2 && strings.HasPrefix(tok[1], "http://") && !seen[tok[1]] {
+			if tok := strings.SplitN(l, " ", 2); len(tok) == 2 && strings.HasPrefix(tok[1], "http://") && !seen[tok[1]] && validURI(tok[1]) {
 				seen[tok[1]] = true
 				us = append(us, kit.HexS(tok[1]))
 			}
@@ -857,7 +934,7 @@ func rounds(c *run.Ctx, s *kit.Summary, r *kit.Rng, nStatic, nStream int, withDr
 		}
 		sc := genStreamCase(r, format, work, i)
 		line := runStream(s, &sc)
-		if !hung {
+		if !hung && len(sc.Faults) == 0 { // an attack ends at the first error
 			runAttackStream(s, &sc)
 		}
 		s.Case("t:"+sc.Src+strconv.Itoa(sc.Callers), sc.Callers > 1 && len(sc.Expected) > 1)
